@@ -90,7 +90,7 @@ func inputClass(c *vlib.Case, reg *c14ref.Region, prefix string) string {
 // ---------------------------------------------------------------------------
 // ear clipping: model2d.Triangulate / model3d.Triangulate
 
-func earCase(c *vlib.Case, rigid bool) {
+func earCase(c *vlib.Case, rigid bool, large bool) {
 	rng := c.Rng
 	R := pickExtent(rng, 20)
 	maxN := 6 + rng.Intn(30)
@@ -99,6 +99,14 @@ func earCase(c *vlib.Case, rigid bool) {
 	}
 	if rigid {
 		R = []int64{4, 10, 30, 100, 200}[rng.Intn(5)]
+	}
+	if large {
+		// several hundred vertices (the documentation only recommends ear clipping for small
+		// polygons, it does not restrict it to them); needs room on the integer grid
+		maxN = 150 + rng.Intn(600)
+		if R < 2000 {
+			R = []int64{2000, 5000, 1 << 14, 1 << 17}[rng.Intn(4)]
+		}
 	}
 	loop, fam, rej := c14ref.MustLoop(rng, R, maxN, -1)
 	c.Count("gen.rejected_not_simple", int64(rej))
@@ -167,13 +175,21 @@ func earCase(c *vlib.Case, rigid bool) {
 	judge(c, o, reg, tris, w)
 	c.Count("ear.decided", 1)
 	c.Count("ear.vertices", int64(len(loop)))
+	if large {
+		c.Count("ear.large.decided", 1)
+		c.Max("ear.large.max_vertices", float64(len(loop)))
+		if len(loop) >= 256 {
+			c.Count("ear.large.256_or_more_vertices", 1)
+		}
+	}
 	nontrivial(c, api, reg, pl, "ear")
 	c.Sample("ear."+fam, 1, map[string]interface{}{"family": fam, "placement": pl.desc, "polygon": w.Loops, "triangles": len(out)})
 }
 
 func earSections(r *vlib.Run) {
-	r.Section("ear.int", r.N(14000, 160000), vlib.SectionOpts{}, func(c *vlib.Case) { earCase(c, false) })
-	r.Section("ear.rigid", r.N(7000, 80000), vlib.SectionOpts{}, func(c *vlib.Case) { earCase(c, true) })
+	r.Section("ear.int", r.N(14000, 160000), vlib.SectionOpts{}, func(c *vlib.Case) { earCase(c, false, false) })
+	r.Section("ear.rigid", r.N(7000, 80000), vlib.SectionOpts{}, func(c *vlib.Case) { earCase(c, true, false) })
+	r.Section("ear.large", r.N(60, 1200), vlib.SectionOpts{}, func(c *vlib.Case) { earCase(c, c.Rng.Intn(3) == 0, true) })
 }
 
 // ---------------------------------------------------------------------------
